@@ -34,25 +34,28 @@ theorem Path_next_ne {σ : Store} {a b n : Node} {l : List Node} (h : Path σ a 
     · refine ih h.2 (List.nodup_cons.1 nd).2 (fun hx => hb (by simp [hx])) (Or.inl ?_) hn'
       intro e; exact hb (by simp [e])
 
-theorem next_self_iff {σ : Store} {R : Rings} (rep : Rep σ R) {n : Node} (hn : n ∈ nodes R) :
+theorem next_self_iff' {σ : Store} {R : Rings} (wf : Wf R) (ring : ∀ r ∈ R, Ring σ r) {n : Node} (hn : n ∈ nodes R) :
     (σ.next n == n) = alone R n := by
   obtain ⟨r, hr, hnr⟩ := mem_nodes.1 hn
   cases ha : alone R n with
   | true =>
-    have := alone_eq rep.wf hr hnr ha
+    have := alone_eq wf hr hnr ha
     subst this
-    have := Ring_single_iff.1 (rep.ring _ hr)
+    have := Ring_single_iff.1 (ring _ hr)
     simp [this.1]
   | false =>
-    have hl := not_alone_len rep.wf hr hnr ha
-    have hring := rep.ring r hr
-    have nd := rep.wf.nodup r hr
+    have hl := not_alone_len wf hr hnr ha
+    have hring := ring r hr
+    have nd := wf.nodup r hr
     cases r with
     | nil => simp at hnr
     | cons x xs =>
       have : σ.next n ≠ n :=
         Path_next_ne hring nd (List.nodup_cons.1 nd).1 (Or.inr (by intro e; subst e; simp at hl)) hnr
       simpa using this
+
+theorem next_self_iff {σ : Store} {R : Rings} (rep : Rep σ R) {n : Node} (hn : n ∈ nodes R) :
+    (σ.next n == n) = alone R n := next_self_iff' rep.wf rep.ring hn
 
 theorem listEmpty_eq {σ : Store} {R : Rings} (rep : Rep σ R) {h : Node} (hh : h ∈ nodes R) :
     listEmpty σ h = .ok (alone R h) := by
@@ -169,8 +172,11 @@ theorem Rep_ctorMove {σ : Store} {R : Rings} (rep : Rep σ R) {y w : Node}
     (hy : y ∈ nodes R) (hal : alone R y = false) (hw : w ∉ nodes R)
     (hk : (∃ e, w = Node.elem e) ∨ (∃ k, y = Node.head k)) :
     baseCtorMove σ w y = .ok (ctorMoveS σ w y) ∧ Rep (ctorMoveS σ w y) ([y] :: replaceNode R y w) := by
+  have hlinked : σ.next y ≠ y := by
+    have := next_self_iff rep hy
+    rw [hal] at this; simpa using this
   refine ⟨baseCtorMove_eq (rep.live_of_mem hy) (rep.live_of_mem (rep.prev_mem hy)) (rep.live_of_mem (rep.next_mem hy))
-    (rep.dead_of_not_mem hw), ?_⟩
+    (rep.dead_of_not_mem hw) hlinked, ?_⟩
   obtain ⟨h1, h2, h3⟩ := Rep_take rep.wf rep.ring hy hal hw hk
   refine ⟨h1, fun r hr => Ring_ptr_eq (σ := takeS σ w y) (τ := ctorMoveS σ w y) (fun _ => rfl) (fun _ => rfl) (h2 r hr), ?_⟩
   intro n
@@ -196,7 +202,8 @@ theorem Rep_assignMove {σ : Store} {R : Rings} (rep : Rep σ R) {y w : Node}
   have hn' : (link σ (σ.prev w) (σ.next w)).next y ∈ nodes (eraseNode R w) := mem_nodes.2 ⟨ry, hry, hn⟩
   refine ⟨baseAssignMove_eq hne (rep.live_of_mem hw) (rep.live_of_mem hy) (rep.live_of_mem (rep.next_mem hw))
     (rep.live_of_mem (rep.prev_mem hw)) (rep.live_of_mem ((mem_nodes_erase rep.wf).1 hp').1)
-    (rep.live_of_mem ((mem_nodes_erase rep.wf).1 hn').1) (fun e => hw1 (by have := hp'; rwa [e] at this)), ?_⟩
+    (rep.live_of_mem ((mem_nodes_erase rep.wf).1 hn').1) (fun e => hw1 (by have := hp'; rwa [e] at this))
+    (by have := next_self_iff' wf1 ring1 hy1; rw [hal] at this; simpa using this), ?_⟩
   obtain ⟨h1, h2, h3⟩ := Rep_take wf1 ring1 hy1 hal hw1 hk
   refine ⟨h1, h2, ?_⟩
   intro n
@@ -206,5 +213,28 @@ theorem Rep_assignMove {σ : Store} {R : Rings} (rep : Rep σ R) {y w : Node}
   by_cases e : n = w
   · simp [e, hw]
   · simp [e]
+
+
+/-- `base(base&&)` from an unlinked source (after f84f067): the new element is a ring of its own -/
+theorem Rep_ctorMove_alone {σ : Store} {R : Rings} (rep : Rep σ R) {y w : Node}
+    (hy : y ∈ nodes R) (hal : alone R y = true) (hw : w ∉ nodes R) :
+    baseCtorMove σ w y = .ok (σ.alloc w w w) ∧ Rep (σ.alloc w w w) ([w] :: R) := by
+  have halone : σ.next y = y := by
+    have := next_self_iff rep hy
+    rw [hal] at this; simpa using this
+  exact ⟨baseCtorMove_alone (rep.live_of_mem hy) (rep.dead_of_not_mem hw) halone, Rep_ctorDefault rep hw⟩
+
+/-- `w = std::move(y)` when `y` is unlinked once `w` has left its ring (after f84f067): `w` ends up unlinked -/
+theorem Rep_assignMove_alone {σ : Store} {R : Rings} (rep : Rep σ R) {y w : Node}
+    (hw : w ∈ nodes R) (hy : y ∈ nodes R) (hne : y ≠ w) (hal : alone (eraseNode R w) y = true) :
+    baseAssignMove σ w y = .ok (unlinkS σ w) ∧ Rep (unlinkS σ w) ([w] :: eraseNode R w) := by
+  have wf1 := Wf_erase rep.wf w
+  have ring1 := rings_erase rep.wf rep.ring hw
+  have hy1 : y ∈ nodes (eraseNode R w) := (mem_nodes_erase rep.wf).2 ⟨hy, hne⟩
+  have halone : (link σ (σ.prev w) (σ.next w)).next y = y := by
+    have := next_self_iff' wf1 ring1 hy1
+    rw [hal] at this; simpa using this
+  exact ⟨baseAssignMove_alone hne (rep.live_of_mem hw) (rep.live_of_mem hy) (rep.live_of_mem (rep.next_mem hw))
+    (rep.live_of_mem (rep.prev_mem hw)) halone, (Rep_unlink rep hw).2⟩
 
 end Fcppt.C11
